@@ -198,6 +198,19 @@ def make_model(name: str, seed: int, dtype: torch.dtype) -> torch.nn.Module:
             torch.nn.Linear(5, 4, bias=True), Act(),
             torch.nn.Linear(4, 2, bias=False),
         )
+    elif name == 'ndt':
+        # N-d linear whose output is TRANSPOSED before use (attention style):
+        # the gradient w.r.t. its output reaches the hook non-contiguous
+        class NdT(torch.nn.Module):
+            def __init__(self) -> None:
+                super().__init__()
+                self.proj = torch.nn.Linear(4, 5)
+                self.mix = torch.nn.Linear(3, 2, bias=False)
+
+            def forward(self, x):                  # (B, 3, 4)
+                y = self.proj(x)                   # (B, 3, 5)
+                return self.mix(torch.tanh(y.transpose(1, 2)))   # (B, 5, 2)
+        m = NdT()
     elif name == 'featcls':
         # torchvision style: the registration order (features.0, features.2,
         # classifier) is NOT the lexicographic order of the layer names
@@ -236,12 +249,12 @@ def make_model(name: str, seed: int, dtype: torch.dtype) -> torch.nn.Module:
 
 def in_shape(name: str) -> tuple[int, ...]:
     return {'mlp3': (4,), 'mlp2': (3,), 'mlp2nb': (3,), 'conv': (2, 4, 4),
-            'mlp4': (4,), 'wide': (32,), 'featcls': (3,), 'conv2': (2, 5, 4), 'nd': (3, 4), 'mixb': (3,), 'eq': (4,), 'conv3': (2, 4, 4)}[name]
+            'mlp4': (4,), 'ndt': (3, 4), 'wide': (32,), 'featcls': (3,), 'conv2': (2, 5, 4), 'nd': (3, 4), 'mixb': (3,), 'eq': (4,), 'conv3': (2, 4, 4)}[name]
 
 
 def out_shape(name: str) -> tuple[int, ...]:
     return {'mlp3': (2,), 'mlp2': (3,), 'mlp2nb': (2,), 'conv': (4,),
-            'mlp4': (2,), 'wide': (8,), 'featcls': (2,), 'conv2': (4,), 'nd': (3, 2), 'mixb': (2,), 'eq': (4,), 'conv3': (4,)}[name]
+            'mlp4': (2,), 'ndt': (5, 2), 'wide': (8,), 'featcls': (2,), 'conv2': (4,), 'nd': (3, 2), 'mixb': (2,), 'eq': (4,), 'conv3': (4,)}[name]
 
 
 def make_batch(cfg: Config, seed: int, rank: int, it: int, mb: int,
